@@ -35,9 +35,9 @@ func run(c *vf.Ctx) {
 		"oracle = RFC 7748 ladder over math/big (KAT-validated incl. the 1,000-iteration vector)")
 	c.Assume("math/big is correct; scalar and point values outside the alphabet are not enumerated")
 
-	nsS, nsP := 4, 6
+	nsS, nsP := 12, 24
 	if c.Thorough {
-		nsS, nsP = 48, 96
+		nsS, nsP = 200, 400
 	}
 	// ---- scalars
 	var scalars []named
